@@ -333,12 +333,11 @@ fn wait_ctl<'a>(
 fn run_once(sched: &Arc<Sched>, prefix: &[usize], strict: bool) -> Exec {
     let mut g = sched.m.lock().unwrap();
     let n = g.status.len();
-    // both public constructors, alternately: `new()` and the derived `Default`
-    static NTH: std::sync::atomic::AtomicUsize = std::sync::atomic::AtomicUsize::new(0);
-    g.holder = Some(Arc::new(if NTH.fetch_add(1, std::sync::atomic::Ordering::Relaxed) % 2 == 0 {
-        SingletonHolder::new()
-    } else {
+    // both public constructors: `new()` or the derived `Default`, the same one for every execution of a case
+    g.holder = Some(Arc::new(if USE_DEFAULT_CTOR.load(std::sync::atomic::Ordering::Relaxed) {
         SingletonHolder::default()
+    } else {
+        SingletonHolder::new()
     }));
     g.results = (0..n).map(|_| Vec::new()).collect();
     g.status = vec![St::Running; n];
@@ -489,8 +488,13 @@ fn parse_prog(s: &str) -> Vec<Vec<Call>> {
         .collect()
 }
 
+static USE_DEFAULT_CTOR: std::sync::atomic::AtomicBool = std::sync::atomic::AtomicBool::new(false);
+
 pub fn run_case(line: &str) -> String {
     install_tracer();
+    // which constructor this case uses: decided by the case text, so that re-running a schedule prefix is reproducible
+    let h = line.bytes().fold(0u32, |a, b| a.wrapping_mul(31).wrapping_add(b as u32));
+    USE_DEFAULT_CTOR.store(h % 2 == 1, std::sync::atomic::Ordering::Relaxed);
     let t: Vec<&str> = line.split_whitespace().collect();
     match t.as_slice() {
         ["A", prog] => {
